@@ -235,6 +235,13 @@ example : (Matrix.of fun i j : Fin 2 => (((i : Nat) + 2 * (j : Nat) + 1 : Nat) :
   simp [Matrix.det_fin_two]
   norm_num
 
+/-- Non-vacuity of the hypothesis `inverseTensor … = .ok (some t)` of `inverse_mul_self`,
+    `self_mul_inverse`, `tensor_keeps_names`: that 2×2 rational view does have an inverse. -/
+example : ∃ t, inverseTensor ("a", "b") ⟨2, 2, fun i j => ((i + 2 * j + 1 : Nat) : ℚ)⟩ = .ok (some t) :=
+  (inverse_some_iff (fun a b => by simp [NumOrd.eq]) ("a", "b")
+      ⟨2, 2, fun i j => ((i + 2 * j + 1 : Nat) : ℚ)⟩ (by decide)).mpr
+    ⟨rfl, by simp [Matrix.det_fin_two]; norm_num⟩
+
 end Inverse
 
 /-! ### The entry points agree; shape and names; no panic (every size, every element type) -/
